@@ -84,7 +84,6 @@ Definition SInv (w : world) (hi : Z) : Prop :=
 Definition ev_ok (e : event) : Prop :=
   match e with
   | Reload start lim _ => 0 <= start /\ 0 <= lim
-  | ProtectFails _ | UnprotectFails _ _ => False      (* _store raising instead of dying: outside the quantifier, see C13_store_error_refuted *)
   | _ => True
   end.
 
@@ -120,6 +119,31 @@ Qed.
 (* exhaustion: refusal leaves everything untouched *)
 Lemma nsn_exhausted p d a : MAX_SEQNO <= ssn p -> new_sequence_number p d a = (p, d, Exn ContextUnavailable).
 Proof. intros H. unfold new_sequence_number. replace (ssn p >=? MAX_SEQNO) with true by lia. reflexivity. Qed.
+
+(* a _store that raises never reaches the rename: sequence.json and its durability are untouched *)
+Lemma store_fails_keeps p d k : d_seq (_store_fails p d k) = d_seq d /\ d_durable (_store_fails p d k) = d_durable d.
+Proof.
+  unfold _store_fails, store_effects.
+  assert (Hk : Z.min (Z.max k 0) 3 = 0 \/ Z.min (Z.max k 0) 3 = 1 \/ Z.min (Z.max k 0) 3 = 2 \/ Z.min (Z.max k 0) 3 = 3) by lia.
+  destruct Hk as [->|[->|[->| ->]]]; cbn; auto.
+Qed.
+Lemma dbound_store_fails p d k : dbound (_store_fails p d k) = dbound d.
+Proof. unfold dbound. rewrite (proj1 (store_fails_keeps p d k)). reflexivity. Qed.
+(* protect() during which _store raises: nothing is handed out, the reservation is rolled back *)
+Lemma nsn_fails_step p d k hi : hi <= dbound d -> PInv p d hi ->
+  match new_sequence_number_fails p d k with
+  | (p', d', Val v) => v = ssn p /\ v < MAX_SEQNO /\ PInv p' d' (v + 1) /\ v + 1 <= dbound d'
+  | (p', d', Exn e) => PInv p' d' hi /\ hi <= dbound d'
+  | (p', d', Died) => hi <= dbound d'
+  end.
+Proof.
+  intros Hd (Hs & Hp & Hc & Hl). unfold new_sequence_number_fails.
+  destruct (ssn p >=? MAX_SEQNO) eqn:Emax; [unfold PInv; auto|].
+  unfold post_seqnoincrease_fails. cbn [ssn persisted chunk limit set_ssn set_persisted set_chunk].
+  destruct (ssn p + 1 >? persisted p) eqn:Egt.
+  - unfold PInv; cbn. rewrite !dbound_store_fails. repeat split; lia.
+  - unfold PInv; cbn. repeat split; lia.
+Qed.
 
 Lemma seq_loop_step n : forall p d a acc hi, hi <= dbound d -> PInv p d hi ->
   match seq_loop n p d a acc with
@@ -208,8 +232,18 @@ Proof.
         * exists hi. split; [cbn; lia|]. split; [split; [exact Hn|exact I]|constructor]. }
       destruct (pend p) as [[n [|]]|]; [|exact Hprot|exact Hprot].
       exists hi. cbn [issued_of]. split; [cbn; lia|]. split; [|constructor]. split; [exact Hd|exact Hp].
-    + destruct Hok.
-    + destruct Hok.
+    + (* ProtectFails: _store raises; the rollback keeps "persisted = bound on disk" *)
+      pose proof (nsn_fails_step p (w_disk w) k hi Hd Hp) as Hn.
+      destruct (new_sequence_number_fails p (w_disk w) k) as [[p1 d1] [v|e|]]; cbn [issued_of].
+      * destruct Hn as (Hv & Hmax & HP1 & Hd1). exists (v + 1). destruct Hp as (Hs & _).
+        split; [cbn; lia|]. split; [split; [exact Hd1|exact HP1]|]. constructor; [exact Hmax|constructor].
+      * destruct Hn as (HP1 & Hd1). exists hi. split; [cbn; lia|]. split; [split; assumption|constructor].
+      * exists hi. split; [cbn; lia|]. split; [split; [exact Hn|exact I]|constructor].
+    + (* UnprotectFails: counters untouched, sequence.json untouched *)
+      unfold unprotect_fails. destruct (unprotect_request (uc p) r) as [c' o].
+      destruct (strikes (uc p) o && wpers (set_uc p c')); cbn [issued_of]; exists hi; (split; [cbn; lia|]); (split; [|constructor]);
+        split; cbn [w_disk w_proc mkw]; rewrite ?dbound_store_fails; try exact Hd;
+        destruct Hp as (Hs & Hpe & Hc & Hl); unfold PInv; cbn; rewrite ?dbound_store_fails; repeat split; lia.
   - destruct ev as [a|n a|r a|a| |start lim echo|a|k|r k]; cbn [issued_of];
       try (exists hi; split; [cbn; lia|]; split; [|constructor]; split; [exact Hd|]; rewrite Ep; exact I).
     (* Reload from disk: the counter restarts at the persisted bound *)
@@ -307,13 +341,6 @@ Lemma seq_loop_durable n : forall p d a acc, d_durable d = true ->
 Proof.
   induction n as [|n IH]; intros p d a acc H; cbn [seq_loop]; [exact H|].
   pose proof (nsn_durable p d a H) as Hn. destruct (new_sequence_number p d a) as [[p1 d1] [v|e|]]; [apply IH; exact Hn|exact Hn|exact Hn].
-Qed.
-(* a _store that raises never reaches the rename: sequence.json and its durability are untouched *)
-Lemma store_fails_keeps p d k : d_seq (_store_fails p d k) = d_seq d /\ d_durable (_store_fails p d k) = d_durable d.
-Proof.
-  unfold _store_fails, store_effects.
-  assert (Hk : Z.min (Z.max k 0) 3 = 0 \/ Z.min (Z.max k 0) 3 = 1 \/ Z.min (Z.max k 0) 3 = 2 \/ Z.min (Z.max k 0) 3 = 3) by lia.
-  destruct Hk as [->|[->|[->| ->]]]; cbn; auto.
 Qed.
 Lemma step_durable w ev : d_durable (w_disk w) = true -> d_durable (w_disk (fst (step w ev))) = true.
 Proof.
